@@ -324,8 +324,97 @@ def job_coulomb(ctx: Ctx):
     co._ATOMIC_GAUSS_PARAMS_CACHE = None
 
 
+def job_reuse(ctx: Ctx, what):
+    """'everything built from it (atomic and molecular grids)': concrete histories on one AtomGrid / MolGrid object of the float code -- every public method is
+    called, then called again with different arguments (after in-place edits of what the first call returned), and the second answer must equal the answer of
+    a freshly built object that never saw the first call.  One concrete history per method pair (ground enumeration, not a solver obligation)."""
+    import warnings
+    warnings.simplefilter("ignore")
+    from grid.atomgrid import AtomGrid
+    from grid.molgrid import MolGrid
+    from grid.becke import BeckeWeights
+    from grid.onedgrid import GaussLegendre
+    from grid.rtransform import BeckeRTransform
+    rng = np.random.default_rng(harness.seed() + 19)
+    rg = BeckeRTransform(1e-4, 1.3).transform_1d_grid(GaussLegendre(8))
+    ctx.encoded(AtomGrid.interpolate, AtomGrid.radial_component_splines, AtomGrid.get_shell_grid, MolGrid.interpolate, MolGrid.get_atomic_grid)
+    bad = {}
+
+    def same(a, b):
+        if isinstance(a, (list, tuple)):
+            return len(a) == len(b) and all(same(x, y) for x, y in zip(a, b))
+        if hasattr(a, "points") and hasattr(a, "weights"):
+            return np.allclose(a.points, b.points, rtol=1e-12, atol=1e-14) and np.allclose(a.weights, b.weights, rtol=1e-12, atol=1e-14)
+        return np.allclose(np.asarray(a, float), np.asarray(b, float), rtol=1e-10, atol=1e-12, equal_nan=True)
+
+    def scribble(x):
+        # what a caller may do with returned arrays
+        if isinstance(x, np.ndarray) and x.flags.writeable and x.dtype.kind == "f":
+            x *= 0.0
+        elif isinstance(x, (list, tuple)):
+            for y in x:
+                scribble(y)
+        elif hasattr(x, "points"):
+            for a_ in (x.points, x.weights):
+                if isinstance(a_, np.ndarray) and a_.flags.writeable:
+                    a_ *= 0.0
+    if what == "atomgrid":
+        mk = lambda: AtomGrid(rg, degrees=[5, 5, 7, 7, 5, 3, 3, 3], center=np.array([0.1, -0.2, 0.3]), rotate=4)
+        f1 = lambda g: np.exp(-np.sum((g.points - g.center) ** 2, axis=1)) * (1 + g.points[:, 0])
+        f2 = lambda g: np.exp(-0.5 * np.sum((g.points - g.center) ** 2, axis=1)) * (g.points[:, 1] - 0.3 * g.points[:, 2] ** 2)
+        q1, q2 = rng.normal(size=(3, 3)) * 0.5, rng.normal(size=(4, 3)) * 0.5
+        calls = {"integrate": (lambda g: g.integrate(f1(g)), lambda g: g.integrate(f2(g))),
+                 "interpolate": (lambda g: g.interpolate(f1(g))(q1), lambda g: g.interpolate(f2(g))(q2, deriv=1)),
+                 "radial_component_splines": (lambda g: [s_(rg.points) for s_ in g.radial_component_splines(f1(g))], lambda g: [s_(rg.points) for s_ in g.radial_component_splines(f2(g))]),
+                 "spherical_average": (lambda g: g.spherical_average(f1(g))(rg.points), lambda g: g.spherical_average(f2(g))(rg.points)),
+                 "integrate_angular_coordinates": (lambda g: g.integrate_angular_coordinates(f1(g)), lambda g: g.integrate_angular_coordinates(f2(g))),
+                 "get_shell_grid": (lambda g: g.get_shell_grid(2), lambda g: [g.get_shell_grid(2), g.get_shell_grid(3, r_sq=False)]),
+                 "convert_cartesian_to_spherical": (lambda g: g.convert_cartesian_to_spherical(q1), lambda g: [g.convert_cartesian_to_spherical(q2), g.convert_cartesian_to_spherical()]),
+                 "moments": (lambda g: g.moments(2, q1[:1], f1(g), "pure"), lambda g: g.moments(2, q1[:1], f2(g), "pure")),
+                 "points/weights": (lambda g: (g.points, g.weights), lambda g: (g.points, g.weights, g.indices, g.degrees))}
+    else:
+        atn = np.array([8, 1, 1])
+        atc = np.array([[0.0, 0.0, 0.2], [0.0, 1.4, -0.9], [0.0, -1.4, -0.9]])
+        mk = lambda: MolGrid(atn, [AtomGrid(rg, degrees=[5] * 8, center=c, rotate=r_) for c, r_ in zip(atc, (0, 3, 7))], BeckeWeights(order=3), store=True)
+        f1 = lambda g: np.exp(-np.sum(g.points ** 2, axis=1))
+        f2 = lambda g: np.exp(-0.5 * np.sum(g.points ** 2, axis=1)) * g.points[:, 1]
+        q1, q2 = rng.normal(size=(3, 3)) * 0.7, rng.normal(size=(4, 3)) * 0.7
+        calls = {"integrate": (lambda g: g.integrate(f1(g)), lambda g: g.integrate(f2(g))),
+                 "interpolate": (lambda g: g.interpolate(f1(g))(q1), lambda g: g.interpolate(f2(g))(q2)),
+                 "get_atomic_grid": (lambda g: g.get_atomic_grid(1), lambda g: [g.get_atomic_grid(1), g.get_atomic_grid(2)]),
+                 "getitem": (lambda g: g[0], lambda g: [g[0], g[2]]),
+                 "points/weights": (lambda g: (g.points, g.weights, g.aim_weights), lambda g: (g.points, g.weights, g.aim_weights, g.atweights, g.indices)),
+                 "moments": (lambda g: g.moments(1, q1[:1], f1(g), "cartesian"), lambda g: g.moments(1, q1[:1], f2(g), "cartesian"))}
+    names = list(calls)
+    OWN_STATE = ("points/weights", "get_atomic_grid", "getitem")
+    import copy as _copy
+    wants = {}
+    for second in names:          # reference answers first, while no returned array has been overwritten yet (module-level caches still pristine)
+        try:
+            wants[second] = _copy.deepcopy(calls[second][1](mk()))
+        except Exception as ex:
+            bad[f"reference {second}"] = f"{type(ex).__name__}: {str(ex)[:100]}"
+    for first in names:
+        for second in names:
+            if second not in wants:
+                continue
+            try:
+                g = mk()
+                r1 = calls[first][0](g)
+                if first not in OWN_STATE:      # .points/.weights and stored atomic grids ARE the object's state: editing them is the caller's own change, not a cache effect
+                    scribble(r1)
+                got = calls[second][1](g)
+                if not same(got, wants[second]):
+                    bad[f"{first} -> {second}"] = "second answer differs from a fresh object"
+            except Exception as ex:
+                bad[f"{first} -> {second}"] = f"{type(ex).__name__}: {str(ex)[:100]}"
+    (ctx.ok if not bad else ctx.fail)(f"float code, one {what} object: every ordered pair of {len(names)} methods - first call (its returned arrays then overwritten by the caller), second call == fresh object",
+                                      detail=str(bad)[:300], key=f"reuse:{what}", how="ground enumeration (not a solver obligation)", replay=(lambda m: (True, dict(list(bad.items())[:8]))), **({} if not bad else dict(model={})))
+    ctx.twins_sat += 1
+
+
 def jobs(tier):
-    js = []
+    js = [Job("reuse/atomgrid", job_reuse, "atomgrid"), Job("reuse/molgrid", job_reuse, "molgrid")]
     maxlen = 3 if tier == "quick" else 4
     for case in ("lebedev", "spherical", "maxdet"):
         for first in OPS[:3] + ["Atom", "AtomRot"]:
